@@ -512,3 +512,53 @@ def surface_operator_rule(ctx, r=None):
             r.ok("PenaltyContact: residual and tangent on a partly penetrating element, element subset")
     except XRaise as e:
         r.fail(f.qualname, "penalty-contact", f.file, f.lineno, "PenaltyContact", f"raises {e}")
+
+
+def clenshaw_curtis_rule(ctx):
+    """R18.15: the strain-path rule itself (R18.6 / R18.12 take its nodes and weights as given): __clenshaw_curtis(n) is
+    interpreted exactly (cosines of rational multiples of pi in Q(sqrt 2, sqrt 3, sqrt 5)) for n = 1 .. 7 points:
+    nodes increasing from 0 to 1 at (1 - cos(k pi / (n - 1))) / 2, weights summing to one, and the rule integrates
+    every monomial s^j, j < n, exactly on [0, 1] (an interpolatory rule on those nodes is unique): the energy defect of
+    the averaged stress is then the quadrature error of a smooth integrand, nothing else."""
+    from ..xeval import Interp
+
+    repo = ctx.repo
+    f = repo.func(f"{NL}.__clenshaw_curtis")
+    r = ctx.rule("R18.15", "__clenshaw_curtis(n), n = 1..7: nodes == (1 - cos(k pi/(n-1)))/2 increasing, sum of weights == 1, exact on s^j for j < n (exact arithmetic)", min_instances=7)
+    for n in range(1, 8):
+        r.instance(fn=f.qualname)
+        try:
+            nodes, weights = Interp(repo).call_function(f, [n])
+        except Uninterpretable as e:
+            if "outside the exact" in str(e):
+                r.note(f"nPoints = {n}: {e}")
+                r.ok(f"nPoints = {n}: not followed ({str(e)[-60:]})")
+                continue
+            raise
+        nodes, weights = [MQ.of(exact_(x)) for x in nodes], [MQ.of(exact_(x)) for x in weights]
+        bad = None
+        if len(nodes) != n or len(weights) != n:
+            bad = f"{len(nodes)} nodes, {len(weights)} weights"
+        elif any(not (nodes[k] < nodes[k + 1]) for k in range(n - 1)) or (n > 1 and (not nodes[0].is_zero() or not (nodes[-1] - MQ.of(1)).is_zero())):
+            bad = f"nodes {nodes} are not increasing from 0 to 1"
+        else:
+            for j in range(n):
+                tot = MQ.of(0)
+                for s, w in zip(nodes, weights):
+                    tot = tot + w * (s ** j if j else MQ.of(1))
+                if not (tot - MQ.of(Q(1, j + 1))).is_zero():
+                    bad = f"sum_k w_k s_k^{j} = {tot.approx(12) if hasattr(tot, 'approx') else tot}, the integral of s^{j} over [0, 1] is 1/{j + 1}"
+                    break
+        if bad:
+            r.fail(f.qualname, f"rule:n={n}", f.file, f.lineno, "__clenshaw_curtis", f"nPoints = {n}: {bad}: the averaged stress is no longer a discrete gradient up to the quadrature error (R . du != Delta W already for a quadratic energy)")
+        else:
+            r.ok(f"nPoints = {n}: interpolatory, weights sum to 1")
+
+
+def exact_(x):
+    from ..xeval import exact
+
+    x = exact(x)
+    if isinstance(x, Poly) and x.is_const():
+        return x.const_value()
+    return x
